@@ -1,4 +1,379 @@
-import GolibsVerif.Model.NetReversed
+/-
+C05 — property theorems: `PrefixFromReversedAddr` and `ExtractReversedAddr` (models in
+`Model/NetReversed.lean`) return exactly the network the reference decoder `Spec/C05.lean`
+reads off the labels; every accepted prefix has all host bits zero; and (C01 for these
+functions) neither function panics, indexes out of range or runs out of loop fuel.
+
+Contracts on `idna.ToASCII` (a parameter of the models) are explicit hypotheses:
+* `hDot` — a name that starts with a dot is mapped to a name that starts with a dot
+  (consequence of IDNA-2 "labels are mapped position-wise");
+* `hT` (IDNA-1) — an all-ASCII name without `xn--` labels is returned unchanged.
+The `example`s at the end show that each hypothesis is needed where it is used.
+-/
+import GolibsVerif.Lemmas.C05Idna
+
 namespace GolibsVerif.C05
-theorem placeholder : True := trivial
+open GolibsVerif.Netutil GolibsVerif.Str GolibsVerif.Netip GolibsVerif GolibsVerif.Gen.Consts
+
+/-! ### 1. Totality (C01) -/
+
+/-- `PrefixFromReversedAddr` never panics: for EVERY behaviour of `idna.ToASCII` and every
+input the model returns normally (no out-of-range index or slice, `ip[l]` never beyond the
+array, no fuel exhaustion, `replaceKind` never hits its `panic`). -/
+theorem prefixFromReversedAddr_total (toASCII : Bytes → Option Bytes) (s : Bytes) :
+    ∃ r, prefixFromReversedAddr toASCII s = .ok r := by
+  rw [prefix_unfold]
+  rcases prologue_cases toASCII s with ⟨_, h⟩ | ⟨_, e, h⟩
+  · rw [h]
+    obtain ⟨r, hr, _⟩ := prefixCore_spec _ (noUpper_asciiLower (trimSuffix s [46]))
+    simp only [hr]
+    exact ⟨_, rfl⟩
+  · rw [h]; exact ⟨_, rfl⟩
+
+/-- `ExtractReversedAddr` never panics, provided `idna.ToASCII` keeps a leading dot (so that a
+validated name has a non-empty first label). -/
+theorem extractReversedAddr_total (toASCII : Bytes → Option Bytes)
+    (hDot : ∀ s t, toASCII s = some t → s.head? = some 46 → t.head? = some 46) (d : Bytes) :
+    ∃ r, extractReversedAddr toASCII d = .ok r := by
+  rw [extract_unfold]
+  rcases prologue_cases toASCII d with ⟨hv, h⟩ | ⟨_, e, h⟩
+  · rw [h]
+    have hhead := valid_no_leading_dot toASCII hDot _ hv
+    rcases extractCore_spec _ (noUpper_asciiLower (trimSuffix d [46])) with ⟨r, hr, _⟩ | ⟨hd, _⟩
+    · simp only [hr]; exact ⟨_, rfl⟩
+    · exact absurd ((head_asciiLower _).1 hd) hhead
+  · rw [h]; exact ⟨_, rfl⟩
+
+/-- `subnetFromReversedV4` is total on every string that ends with `in-addr.arpa` (what both
+callers pass), including strings that are not valid domain names. -/
+theorem subnetFromReversedV4_total (arpa : Bytes) (h : hasSuffix arpa v4tail = true) :
+    ∃ r, subnetFromReversedV4 arpa = .ok r := by
+  obtain ⟨pre, rfl⟩ := (hasSuffix_iff _ _).1 h
+  obtain ⟨r, hr, _⟩ := subnetV4_spec pre
+  exact ⟨r, hr⟩
+
+/-- `subnetFromReversedV6` is total on every string that ends with `ip6.arpa`. -/
+theorem subnetFromReversedV6_total (arpa : Bytes) (h : hasSuffix arpa v6tail = true) :
+    ∃ r, subnetFromReversedV6 arpa = .ok r := by
+  obtain ⟨pre, rfl⟩ := (hasSuffix_iff _ _).1 h
+  obtain ⟨r, hr, _⟩ := subnetV6_total pre
+  exact ⟨r, hr⟩
+
+/-- `ipv4NetFromReversed` is total on every string with at most three dots (its caller passes
+at most two): `ip[l]` stays inside the `[4]byte`, the slices stay in range, the loop ends. -/
+theorem ipv4NetFromReversed_total (arpa : Bytes) (h : countByte arpa 46 ≤ 3) :
+    ∃ r, ipv4NetFromReversed arpa = .ok r := by
+  obtain ⟨l, R, hl, hR, ha, _⟩ := exists_frontOf arpa
+  have hc : countByte arpa 46 = R.length := by
+    have h1 := count_dot_frontOf R hR
+    have h2 := count_dot_dotfree l hl
+    unfold countByte at *
+    rw [ha, List.count_append, h1, h2]; rfl
+  obtain ⟨r, hr, _⟩ := ipv4NetLoop_spec R l (arpa.length + 1) [] hl hR
+    (by have := length_frontOf_ge R; rw [ha]; simp; omega) (by simp; omega)
+  unfold ipv4NetFromReversed
+  rw [ha] at hr ⊢
+  simp only [bind, Except.bind, pure, Except.pure, hr]
+  cases r <;> exact ⟨_, rfl⟩
+
+/-- `ipv6FromReversed` is total on every string of at least 64 bytes (its callers pass 72). -/
+theorem ipv6FromReversed_total (arpa : Bytes) (h : 64 ≤ arpa.length) :
+    ∃ r, ipv6FromReversed arpa = .ok r := by
+  obtain ⟨r, hr, _⟩ := ipv6FromReversedLoop_spec 16 [] arpa 0 [] (by simp) (by omega)
+  unfold ipv6FromReversed
+  simp only [List.nil_append] at hr
+  simp only [bind, Except.bind, pure, Except.pure, hr]
+  cases r <;> exact ⟨_, rfl⟩
+
+/-- `ipv6NetFromReversed` is total on every string shorter than 72 bytes that ends with
+`ip6.arpa` (what `subnetFromReversedV6` passes): `arpa[nibbleIdx+1]` and `ip[l/2]` stay in
+range. -/
+theorem ipv6NetFromReversed_total (arpa : Bytes) (h : hasSuffix arpa v6tail = true)
+    (hlen : arpa.length < arpaV6MaxLen) : ∃ r, ipv6NetFromReversed arpa = .ok r := by
+  obtain ⟨r, hr⟩ := subnetFromReversedV6_total arpa h
+  refine ⟨r, ?_⟩
+  rw [← hr]
+  unfold subnetFromReversedV6
+  have h1 : ¬ arpa.length = arpaV6MaxLen := by omega
+  have h2 : ¬ arpa.length > arpaV6MaxLen := by omega
+  simp [h1, h2]
+
+/-- `indexFirstV4Label` is total on every name that ends with a label-aligned `in-addr.arpa`,
+and "idx is never negative" (nor beyond the string). -/
+theorem indexFirstV4Label_total (domain : Bytes) (h : hasSuffix domain v4tail = true)
+    (hal : alignedAt domain arpaV4Suffix.length = .ok true) :
+    ∃ i : Nat, indexFirstV4Label domain = .ok (i : Int) ∧ i ≤ domain.length := by
+  obtain ⟨pre, rfl⟩ := (hasSuffix_iff _ _).1 h
+  rw [alignedAt_eval pre v4tail _ (by decide)] at hal
+  have hal' : pre = [] ∨ pre.getLast? = some 46 := by simpa using hal
+  obtain ⟨F, hFd, rfl⟩ : ∃ F : List Bytes, (∀ x ∈ F, DotFree x) ∧ pre = frontOf F := by
+    rcases hal' with h | h
+    · exact ⟨[], by simp, by simp [h, frontOf]⟩
+    · obtain ⟨f, rfl⟩ := List.getLast?_eq_some_iff.1 h
+      obtain ⟨R, _, hR, hf⟩ := exists_frontOf_of_dot f
+      exact ⟨R, hR, hf⟩
+  obtain ⟨taken, hsplit, _⟩ := scanP_split octetOK 4 F
+  refine ⟨(frontOf (scanP octetOK 4 F)).length, ?_, ?_⟩
+  · unfold indexFirstV4Label
+    have : ((frontOf F ++ v4tail).length : Int) - (arpaV4Suffix.length : Int) + 1 = ((frontOf F).length : Int) := by
+      simp [v4tail, lblInAddr, lblArpa, arpaV4Suffix]; omega
+    rw [this]
+    exact indexV4_spec 4 F v4tail hFd
+  · conv => rhs; rw [hsplit, frontOf_append]
+    simp
+
+/-- `indexFirstV6Label` is total on every name that ends with a label-aligned `ip6.arpa` and
+does not start with a dot. -/
+theorem indexFirstV6Label_total (domain : Bytes) (h : hasSuffix domain v6tail = true)
+    (hal : alignedAt domain arpaV6Suffix.length = .ok true) (hd : domain.head? ≠ some 46) :
+    ∃ i : Nat, indexFirstV6Label domain = .ok (i : Int) ∧ i ≤ domain.length := by
+  obtain ⟨pre, rfl⟩ := (hasSuffix_iff _ _).1 h
+  rw [alignedAt_eval pre v6tail _ (by decide)] at hal
+  have hal' : pre = [] ∨ pre.getLast? = some 46 := by simpa using hal
+  obtain ⟨F, hFd, rfl⟩ : ∃ F : List Bytes, (∀ x ∈ F, DotFree x) ∧ pre = frontOf F := by
+    rcases hal' with h | h
+    · exact ⟨[], by simp, by simp [h, frontOf]⟩
+    · obtain ⟨f, rfl⟩ := List.getLast?_eq_some_iff.1 h
+      obtain ⟨R, _, hR, hf⟩ := exists_frontOf_of_dot f
+      exact ⟨R, hR, hf⟩
+  obtain ⟨taken, hsplit, _⟩ := scanP_split isNib 32 F
+  have hlenE : ((frontOf F ++ v6tail).length : Int) - (arpaV6Suffix.length : Int) + 1 = ((frontOf F).length : Int) := by
+    simp [v6tail, lblIp6, lblArpa, arpaV6Suffix]; omega
+  refine ⟨(frontOf (scanP isNib 32 F)).length, ?_, ?_⟩
+  · unfold indexFirstV6Label
+    rw [hlenE]
+    rcases indexV6_spec 32 F v6tail hFd with hidx | ⟨hlast, _⟩
+    · exact hidx
+    · exfalso
+      apply hd
+      have := frontOf_head_dot F hlast
+      cases hf : frontOf F with
+      | nil => rw [hf] at this; simp at this
+      | cons a t => rw [hf] at this; simpa using this
+  · conv => rhs; rw [hsplit, frontOf_append]
+    simp
+
+/-! ### 2. Host bits -/
+
+/-- Every prefix `PrefixFromReversedAddr` returns is a well-formed IPv4 (`bits ≤ 32`, multiple
+of 8) or IPv6 (`bits ≤ 128`, multiple of 4) prefix all of whose host bits are zero — for
+every behaviour of `idna.ToASCII`. -/
+theorem prefix_masked (toASCII : Bytes → Option Bytes) (s : Bytes) (p : Prefix)
+    (h : prefixFromReversedAddr toASCII s = .ok (.ok p)) : Masked p := by
+  rw [prefix_unfold] at h
+  rcases prologue_cases toASCII s with ⟨_, hp⟩ | ⟨_, e, hp⟩
+  · rw [hp] at h
+    obtain ⟨r, hr, _, hshape⟩ := prefixCore_spec _ (noUpper_asciiLower (trimSuffix s [46]))
+    simp only [hr] at h
+    have hr' : r = .ok p := (wrapARPA_ok _ _ _).1 (by injection h)
+    rcases hshape p hr' with ⟨os, h1, h2, rfl⟩ | ⟨ns, h1, h2, rfl⟩
+    · exact masked_v4Prefix os h1 h2
+    · exact masked_v6Prefix ns h1 h2
+  · rw [hp] at h; cases h
+
+/-- The same for `ExtractReversedAddr`. -/
+theorem extract_masked (toASCII : Bytes → Option Bytes) (d : Bytes) (p : Prefix)
+    (h : extractReversedAddr toASCII d = .ok (.ok p)) : Masked p := by
+  rw [extract_unfold] at h
+  rcases prologue_cases toASCII d with ⟨_, hp⟩ | ⟨_, e, hp⟩
+  · rw [hp] at h
+    rcases extractCore_spec _ (noUpper_asciiLower (trimSuffix d [46])) with ⟨r, hr, _, hshape⟩ | ⟨_, e, he⟩
+    · simp only [hr] at h
+      have hr' : r = .ok p := (wrapARPA_ok _ _ _).1 (by injection h)
+      rcases hshape p hr' with ⟨os, h1, h2, rfl⟩ | ⟨ns, h1, h2, rfl⟩
+      · exact masked_v4Prefix os h1 h2
+      · exact masked_v6Prefix ns h1 h2
+    · simp only [he] at h; cases h
+  · rw [hp] at h; cases h
+
+/-! ### 3. Soundness of `PrefixFromReversedAddr` -/
+
+/-- Soundness, with no hypothesis on `idna.ToASCII`, for inputs that do not start with a dot:
+an accepted name decodes, by the reference decoder, to exactly the returned prefix. -/
+theorem prefix_sound_of_no_leading_dot (toASCII : Bytes → Option Bytes) (s : Bytes) (p : Prefix)
+    (hs : s.head? ≠ some 46)
+    (h : prefixFromReversedAddr toASCII s = .ok (.ok p)) : arpaPrefixSpec (labelsOf s) = some p := by
+  rw [prefix_unfold] at h
+  rcases prologue_cases toASCII s with ⟨_, hp⟩ | ⟨_, e, hp⟩
+  · rw [hp] at h
+    obtain ⟨r, hr, hspec, _⟩ := prefixCore_spec _ (noUpper_asciiLower (trimSuffix s [46]))
+    simp only [hr] at h
+    have hr' : r = .ok p := (wrapARPA_ok _ _ _).1 (by injection h)
+    have hhead : (asciiLower (trimSuffix s [46])).head? ≠ some 46 :=
+      fun hd => hs (head_trimSuffix s ((head_asciiLower _).1 hd))
+    have := hspec hhead
+    rw [hr'] at this
+    exact this.symm
+  · rw [hp] at h; cases h
+
+/-- Soundness of `PrefixFromReversedAddr` under the leading-dot contract. -/
+theorem prefix_sound (toASCII : Bytes → Option Bytes)
+    (hDot : ∀ s t, toASCII s = some t → s.head? = some 46 → t.head? = some 46)
+    (s : Bytes) (p : Prefix)
+    (h : prefixFromReversedAddr toASCII s = .ok (.ok p)) : arpaPrefixSpec (labelsOf s) = some p := by
+  rw [prefix_unfold] at h
+  rcases prologue_cases toASCII s with ⟨hv, hp⟩ | ⟨_, e, hp⟩
+  · rw [hp] at h
+    have hhead0 := valid_no_leading_dot toASCII hDot _ hv
+    obtain ⟨r, hr, hspec, _⟩ := prefixCore_spec _ (noUpper_asciiLower (trimSuffix s [46]))
+    simp only [hr] at h
+    have hr' : r = .ok p := (wrapARPA_ok _ _ _).1 (by injection h)
+    have := hspec (fun hd => hhead0 ((head_asciiLower _).1 hd))
+    rw [hr'] at this
+    exact this.symm
+  · rw [hp] at h; cases h
+
+/-! ### 4. Completeness of `PrefixFromReversedAddr` (IDNA-1) -/
+
+/-- If the reference decoder reads a prefix off the labels, `PrefixFromReversedAddr` returns
+it — given that `idna.ToASCII` returns all-ASCII names without `xn--` labels unchanged. -/
+theorem prefix_complete (toASCII : Bytes → Option Bytes)
+    (hT : ∀ s, (∀ b ∈ s, b < 128) → NoXnLabel s → toASCII s = some s)
+    (s : Bytes) (p : Prefix)
+    (h : arpaPrefixSpec (labelsOf s) = some p) : prefixFromReversedAddr toASCII s = .ok (.ok p) := by
+  obtain ⟨hv, hhead⟩ := accepted_valid toASCII hT (trimSuffix s [46]) p h
+  rw [prefix_unfold]
+  rcases prologue_cases toASCII s with ⟨_, hp⟩ | ⟨hnv, _⟩
+  · rw [hp]
+    obtain ⟨r, hr, hspec, _⟩ := prefixCore_spec _ (noUpper_asciiLower (trimSuffix s [46]))
+    simp only [hr]
+    have := hspec hhead
+    unfold labelsOf at h
+    rw [h] at this
+    cases r with
+    | error e => simp [okVal] at this
+    | ok q => simp [okVal] at this; subst this; rfl
+  · exact absurd hv hnv
+
+/-- `PrefixFromReversedAddr(s) = p` ⇔ the reference decoder reads `p` off the labels of `s`. -/
+theorem prefix_iff (toASCII : Bytes → Option Bytes)
+    (hDot : ∀ s t, toASCII s = some t → s.head? = some 46 → t.head? = some 46)
+    (hT : ∀ s, (∀ b ∈ s, b < 128) → NoXnLabel s → toASCII s = some s)
+    (s : Bytes) (p : Prefix) :
+    prefixFromReversedAddr toASCII s = .ok (.ok p) ↔ arpaPrefixSpec (labelsOf s) = some p :=
+  ⟨prefix_sound toASCII hDot s p, prefix_complete toASCII hT s p⟩
+
+/-! ### 5. `ExtractReversedAddr` -/
+
+/-- Soundness, with no hypothesis on `idna.ToASCII`: if `ExtractReversedAddr(d)` returns `p`
+then `d` (minus one trailing dot) passes `ValidateDomainName` and `p` is what the reference
+decoder reads off the longest label-aligned suffix on which it is defined. -/
+theorem extract_sound (toASCII : Bytes → Option Bytes) (d : Bytes) (p : Prefix)
+    (h : extractReversedAddr toASCII d = .ok (.ok p)) :
+    validateDomainName toASCII (trimSuffix d [46]) = .ok none ∧
+      longestArpaSuffix (labelsOf d) = some p := by
+  rw [extract_unfold] at h
+  rcases prologue_cases toASCII d with ⟨hv, hp⟩ | ⟨_, e, hp⟩
+  · rw [hp] at h
+    refine ⟨hv, ?_⟩
+    rcases extractCore_spec _ (noUpper_asciiLower (trimSuffix d [46])) with ⟨r, hr, hspec, _⟩ | ⟨_, e, he⟩
+    · simp only [hr] at h
+      have hr' : r = .ok p := (wrapARPA_ok _ _ _).1 (by injection h)
+      rw [hr'] at hspec
+      exact hspec.symm
+    · simp only [he] at h; cases h
+  · rw [hp] at h; cases h
+
+/-- Completeness under the leading-dot contract: a valid domain name with an ARPA name as a
+label-aligned suffix is decoded to the prefix of the longest such suffix. -/
+theorem extract_complete (toASCII : Bytes → Option Bytes)
+    (hDot : ∀ s t, toASCII s = some t → s.head? = some 46 → t.head? = some 46)
+    (d : Bytes) (p : Prefix)
+    (hv : validateDomainName toASCII (trimSuffix d [46]) = .ok none)
+    (h : longestArpaSuffix (labelsOf d) = some p) :
+    extractReversedAddr toASCII d = .ok (.ok p) := by
+  rw [extract_unfold]
+  rcases prologue_cases toASCII d with ⟨_, hp⟩ | ⟨hnv, _⟩
+  · rw [hp]
+    have hhead := valid_no_leading_dot toASCII hDot _ hv
+    rcases extractCore_spec _ (noUpper_asciiLower (trimSuffix d [46])) with ⟨r, hr, hspec, _⟩ | ⟨hd, _⟩
+    · simp only [hr]
+      unfold labelsOf at h
+      rw [h] at hspec
+      cases r with
+      | error e => simp [okVal] at hspec
+      | ok q => simp [okVal] at hspec; subst hspec; rfl
+    · exact absurd ((head_asciiLower _).1 hd) hhead
+  · exact absurd hv hnv
+
+/-- `ExtractReversedAddr(d) = p` ⇔ `d` is a valid domain name and `p` is the prefix of its
+longest label-aligned ARPA suffix. -/
+theorem extract_iff (toASCII : Bytes → Option Bytes)
+    (hDot : ∀ s t, toASCII s = some t → s.head? = some 46 → t.head? = some 46)
+    (d : Bytes) (p : Prefix) :
+    extractReversedAddr toASCII d = .ok (.ok p) ↔
+      validateDomainName toASCII (trimSuffix d [46]) = .ok none ∧
+        longestArpaSuffix (labelsOf d) = some p :=
+  ⟨extract_sound toASCII d p, fun ⟨hv, h⟩ => extract_complete toASCII hDot d p hv h⟩
+
+
+/-! ### Non-vacuity: the hypotheses are satisfiable, and each is needed -/
+
+/-- the returned prefix, if the call returned normally without an error -/
+def result (r : GoM (Except Err Prefix)) : Option Prefix :=
+  match r with
+  | .ok (.ok p) => some p
+  | _ => none
+
+/-- the Go panic, if the call panicked -/
+def panicOf (r : GoM (Except Err Prefix)) : Option GoPanic :=
+  match r with
+  | .error e => some e
+  | .ok _ => none
+
+/-- the identity satisfies both contracts -/
+def idAscii : Bytes → Option Bytes := some
+
+example : ∀ s t, idAscii s = some t → s.head? = some 46 → t.head? = some 46 := by
+  intro s t h; cases h; exact id
+example : ∀ s, (∀ b ∈ s, b < 128) → NoXnLabel s → idAscii s = some s := fun _ _ _ => rfl
+
+-- accepted names (both families, mixed case, trailing dot, root zones, odd nibble count)
+example : result (prefixFromReversedAddr idAscii (ascii "3.2.10.In-Addr.ARPA.")) =
+    some ⟨.v4 [10, 2, 3, 0], 24⟩ := by decide
+example : result (prefixFromReversedAddr idAscii (ascii "4.3.2.1.in-addr.arpa")) =
+    some ⟨.v4 [1, 2, 3, 4], 32⟩ := by decide
+example : result (prefixFromReversedAddr idAscii (ascii "in-addr.arpa")) =
+    some ⟨.v4 [0, 0, 0, 0], 0⟩ := by decide
+example : result (prefixFromReversedAddr idAscii (ascii "B.a.1.ip6.arpa")) =
+    some ⟨.v6 [0x1a, 0xb0, 0, 0, 0, 0, 0, 0, 0, 0, 0, 0, 0, 0, 0, 0] [], 12⟩ := by decide
+example : arpaPrefixSpec (labelsOf (ascii "B.a.1.ip6.arpa")) =
+    some ⟨.v6 [0x1a, 0xb0, 0, 0, 0, 0, 0, 0, 0, 0, 0, 0, 0, 0, 0, 0] [], 12⟩ := by decide
+example : Masked ⟨.v6 [0x1a, 0xb0, 0, 0, 0, 0, 0, 0, 0, 0, 0, 0, 0, 0, 0, 0] [], 12⟩ :=
+  prefix_masked idAscii (ascii "B.a.1.ip6.arpa") _
+    (prefix_complete idAscii (fun _ _ _ => rfl) _ _ (by decide))
+-- rejected names (leading zero, the repaired defect; 5 octets; two-character nibble label)
+example : arpaPrefixSpec (labelsOf (ascii "00.in-addr.arpa")) = none := by decide
+example : result (prefixFromReversedAddr idAscii (ascii "00.in-addr.arpa")) = none := by decide
+example : result (prefixFromReversedAddr idAscii (ascii "5.4.3.2.1.in-addr.arpa")) = none := by decide
+example : result (prefixFromReversedAddr idAscii (ascii "aa.ip6.arpa")) = none := by decide
+-- extraction takes the longest suffix and ignores what precedes it
+example : result (extractReversedAddr idAscii (ascii "x.5.4.3.2.1.in-addr.arpa")) =
+    some ⟨.v4 [1, 2, 3, 4], 32⟩ := by decide
+example : longestArpaSuffix (labelsOf (ascii "x.5.4.3.2.1.in-addr.arpa")) =
+    some ⟨.v4 [1, 2, 3, 4], 32⟩ := by decide
+example : result (extractReversedAddr idAscii (ascii "aa.ip6.arpa")) =
+    some ⟨.v6 [0, 0, 0, 0, 0, 0, 0, 0, 0, 0, 0, 0, 0, 0, 0, 0] [], 0⟩ := by decide
+example : result (extractReversedAddr idAscii (ascii "xip6.arpa")) = none := by decide
+
+/-- an `idna.ToASCII` that violates the leading-dot contract on two names -/
+def dotDroppingAscii (s : Bytes) : Option Bytes :=
+  if s = ascii ".ip6.arpa" ∨ s = ascii ".1.in-addr.arpa" then some (ascii "a.b") else some s
+
+/-- Without `hDot` the model of `ExtractReversedAddr` DOES panic (`domain[-1]` in
+`indexFirstV6Label`), so the hypothesis of `extractReversedAddr_total` is needed. -/
+example : panicOf (extractReversedAddr dotDroppingAscii (ascii ".ip6.arpa")) =
+    some (.indexOutOfRange (-1) 9) := by decide
+
+/-- Without `hDot`, `PrefixFromReversedAddr` accepts a name the reference decoder rejects (the
+loop of `ipv4NetFromReversed` ends silently on the empty first label), so the hypothesis of
+`prefix_sound` is needed. -/
+example : result (prefixFromReversedAddr dotDroppingAscii (ascii ".1.in-addr.arpa")) =
+      some ⟨.v4 [1, 0, 0, 0], 8⟩ ∧
+    arpaPrefixSpec (labelsOf (ascii ".1.in-addr.arpa")) = none := by decide
+
+/-- Without IDNA-1 completeness fails (an `idna.ToASCII` that rejects everything). -/
+example : result (prefixFromReversedAddr (fun _ => none) (ascii "in-addr.arpa")) = none ∧
+    arpaPrefixSpec (labelsOf (ascii "in-addr.arpa")) = some ⟨.v4 [0, 0, 0, 0], 0⟩ := by decide
+
 end GolibsVerif.C05
